@@ -5,6 +5,7 @@
 -/
 import TxVerif.Model.Hex
 import TxVerif.Model.Meta
+import TxVerif.Model.EngineDriver
 open TxVerif
 
 def choiceStr : Choice → String
@@ -57,6 +58,22 @@ partial def loop (h : IO.FS.Stream) (st : St) : IO St := do
     IO.println s!"BADLINE line={st.line}"
     loop h { st with bad := st.bad + 1 }
 
+/-- engine mode: programs are delimited by `program …` / `end` lines -/
+partial def engLoop (h : IO.FS.Stream) (st : EngSt) (prog : String) (checked mism progs : Nat) : IO (Nat × Nat × Nat) := do
+  let line ← h.getLine
+  if line.isEmpty then return (checked + st.checked, mism + st.mismatches.length, progs)
+  let l := line.trimAscii.toString
+  if l.startsWith "program " then engLoop h {} l checked mism progs
+  else if l == "end" then
+    for m in st.mismatches.take 3 do
+      IO.println s!"MISMATCH {prog}: {m}"
+    engLoop h {} "" (checked + st.checked) (mism + st.mismatches.length) (progs + 1)
+  else if l.isEmpty || l.startsWith "#" then engLoop h st prog checked mism progs
+  else
+    -- after the first mismatch of a program the states have diverged: stop comparing it
+    if st.mismatches.isEmpty then engLoop h (engStep st l) prog checked mism progs
+    else engLoop h st prog checked mism progs
+
 def main (args : List String) : IO UInt32 := do
   let mode := args.headD "pure"
   let stdin ← IO.getStdin
@@ -65,6 +82,10 @@ def main (args : List String) : IO UInt32 := do
     let st ← loop stdin {}
     IO.println s!"DONE checked={st.checked} mismatches={st.mismatches} bad={st.bad}"
     return (if st.mismatches == 0 && st.bad == 0 then 0 else 1)
+  | "engine" =>
+    let (checked, mism, progs) ← engLoop stdin {} "" 0 0 0
+    IO.println s!"DONE checked={checked} mismatches={mism} bad=0 programs={progs}"
+    return (if mism == 0 then 0 else 1)
   | _ =>
     IO.eprintln s!"unknown mode {mode}"
     return 2
